@@ -30,9 +30,7 @@ PLAN = {
 
 # properties whose unbounded theorems cover only part of the statement (what is missing is decided by the
 # correspondence + oracle on every run and spelled out in MANIFEST.json / DESIGN.md)
-PARTIAL = {
-    "C09": "the numeric message bound is proved for component, parent-link and downloadable-asset traffic (host and client writers); for entity and material traffic the theorems are the no-echo / absorption invariants of C01 / C06, the count is an oracle check",
-}
+PARTIAL = {}
 
 TRUSTED = [
     "modelled, tied by trace correspondence only: bevy's scheduler (atomic systems, one shared sync point, end-of-schedule flush in topological order; the harness forces the single-threaded executor on Update so that run order = dumped order), change detection ticks, Commands, renet's reliable ordered channel (FIFO, no loss/duplication within its budget), netcode handshake",
